@@ -131,4 +131,14 @@ theorem monitors_sound (kv : KV.KV) (c : DB.Caller) (op : DB.Op) (aok sok : Bool
   ⟨MonSound.c04_savefail_noop_sound kv c op aok sok h, MonSound.c04_mem_eq_disk_sound kv c op aok sok,
    MonSound.c04_gen_iff_saved_sound kv c op aok sok h⟩
 
+/-- T1, `kv.save` in calls: marshal the whole map, encrypt it under the data key, marshal the
+wrapper, and hand the bytes to `atomicfile.WriteFile` for the configured path with mode 0600 -
+nothing else: no call to the key-encryption key, no file operation of its own (no temporary
+file of its own naming, no copy kept beside the database, no rename of the live file), no
+per-secret shortcut. -/
+theorem fact_save_shape :
+    Facts.kvSaveCalls = ["json.Marshal", "kv.dekCipher.Encrypt", "aeadContextDB", "json.Marshal", "atomicfile.WriteFile"] ∧
+    Facts.kvSaveFileCalls = ["atomicfile.WriteFile(kv.path, out, 0600)"] := by
+  decide
+
 end Setec.C04
